@@ -23,6 +23,8 @@ def main():
         if mm:
           clause = mm.group(1)
         det.append(f'{c} ({clause})' if clause else c)
+    if not det and m.get('demo_fails_with_patch_at_head') is False:
+      det = ['— (no longer breaks the property on the repaired tree: its own demonstration passes)']
     rows.append(f'| {os.path.basename(d)} | {files}: {what} | {", ".join(det) if det else "NOT DETECTED"} |')
   path = os.path.join(VERIF, 'DESIGN.md')
   text = open(path).read()
